@@ -1,1 +1,16 @@
-fn main() { println!("{:?}", boa_gc::verif::stats()); }
+//! `simgc "<ops>|<gc points>"`: run one C09 scenario (also under Miri). Exit 1 on violation.
+fn main() {
+    let arg = std::env::args().nth(1).unwrap_or_default();
+    let (ops, gcs) = simgc::parse(&arg);
+    let out = simgc::run(&ops, &gcs);
+    println!(
+        "ops={} skipped={} collections={} injected={} nodes={} freed={} resurrections={} tainted={}",
+        out.ops_executed, out.ops_skipped, out.collections, out.injected_fired, out.nodes, out.freed, out.resurrections, out.tainted
+    );
+    for (c, d) in &out.violations {
+        println!("VIOLATION-CLASS {c}: {d}");
+    }
+    if !out.violations.is_empty() {
+        std::process::exit(1);
+    }
+}
